@@ -267,7 +267,7 @@ def _tuplify(x):
 _TAGS = {"int", "var", "bin", "cmp", "E", "len", "walrus", "ifexp", "idx", "list", "tuple", "lam", "comp", "genexp", "gsum", "lam2", "mlstr",
          "dict", "str", "range", "attr", "call", "neg", "n", "t", "l", "star", "sub", "assign", "aug", "ann", "for",
          "while", "if", "try", "with", "import", "def", "class", "expr", "return", "raise", "yield", "yieldassign",
-         "yieldfrom", "break", "continue", "pass", "del", "assert", "global", "nonlocal", "declin", "anntarget"}
+         "yieldfrom", "break", "continue", "pass", "del", "assert", "global", "nonlocal", "declin", "anntarget", "doc"}
 
 
 def payload_of(case):
